@@ -112,15 +112,15 @@ _POOL = {}
 POOL_SIZE = 4          # generalised singles + doubles on 4 spin-orbitals (checked in _pool)
 
 
-def _pool(mapping, utd):
+def _pool(mapping, utd, n_so=4):
     """ADAPT operator pool exactly as ADAPTSolver prepares it (generalised singles/doubles, coefficients +-1)"""
-    key = (mapping, utd)
+    key = (mapping, utd) if n_so == 4 else (mapping, utd, n_so)
     if key not in _POOL:
         import math
         from tangelo.toolboxes.ansatz_generator._general_unitary_cc import uccgsd_generator
         from tangelo.toolboxes.qubit_mappings.mapping_transform import fermion_to_qubit_mapping
-        ops = [fermion_to_qubit_mapping(f, mapping, n_spinorbitals=4, n_electrons=2, up_then_down=utd, spin=0)
-               for f in uccgsd_generator(n_qubits=4)]
+        ops = [fermion_to_qubit_mapping(f, mapping, n_spinorbitals=n_so, n_electrons=2, up_then_down=utd, spin=0)
+               for f in uccgsd_generator(n_qubits=n_so)]
         for op in ops:
             for t, c in op.terms.items():
                 op.terms[t] = math.copysign(1., c.imag)
